@@ -258,12 +258,16 @@ def run_task(task, which, PROP):
     extra = []
     if task["params"].get("fix_strategy") is not None:
         extra.append(z3.Bool("strat_all") == bool(task["params"]["fix_strategy"]))
+    if task["params"].get("free_inputs"):
+        fv, fc = hist.declare_free(net)
+        vs, cs = vs + fv, cs + fc
     H = hist.SymH(net.n)
     selftest = task["params"].get("selftest")
     asserter = assertion_c06 if which == "C06" else assertion_c07
 
     def harness(ctx, rules):
         oracles.AEON_TEXT.clear()
+        hist.set_presentation(H, net.names, task["params"])
         out = execute(rules, prefix, H, net.names, True)
         parts = asserter(net, out)
         if selftest:
@@ -279,6 +283,7 @@ def run_task(task, which, PROP):
 def replay(rec, which):
     B = ConcreteNet.from_bnet(rec["rules"])
     H = hist.ConcH(rec.get("hist", {}))
+    hist.set_presentation(H, B.names, rec["params"])
     out = execute(rec["rules"], tuple(rec["params"]["prefix"]), H, B.names, False)
     parts = (assertion_c06 if which == "C06" else assertion_c07)(B, out)
     if rec["params"].get("selftest"):
